@@ -37,6 +37,9 @@ CLAIMS = {
  "C12": dict(text="Structural necessary conditions decided on every path: taint rule for the stream header (every non-constant string is escaped, typed harmless, or constant/RandomID at all call sites; content namespace constant before every Send); Expect's single success return dominated by the framing name test, nil FromStartElement error, version 1.0, supported namespace and stream id; an arm per header attribute in FromStartElement; restart address checks against snapshots taken before the header is read; bind request/response literals, guard/use agreement of the bind payload, UpdateAddr only for our id and a result, bound address from the callback or a per-request random resource. Level 'other': a peer's parser recovering the same values (round trip) is not decided.",
              ref="DESIGN.md section 2, C12", tech="static analysis: taint (source/sanitiser/sink with call-site provenance), edge-dominance incl. role-restricted and from-point dominance, must-pass-through ordering, literal checks",
              note="Trusted: xml.EscapeText escapes attribute-unsafe characters; jid.JID.String is the canonical form."),
+ "C14": dict(text="Complete for lookup order: the tables are Go maps keyed by the full pattern, so specificity = order of the looked-up keys. An abstract evaluator executes IQHandler/MessageHandler/PresenceHandler/Handler symbolically over payload name (S,L) and type T (straight-line code, return-on-hit ifs and unrolled literal loops; anything else is undecided = failed) and requires the key sequence exact -> local only -> namespace only -> type wildcard in the function's own table with its own kind constant, then the documented fallback; plus router argument flow, replay-buffer shape (offset zero, buffer kept, copies only), empty-stanza arm, registration guards and who-may-write for the tables. Level 'other' (static): holds for every pattern set and every element because no registration or input is sampled.",
+             ref="DESIGN.md section 4, C14", tech="static analysis: purpose-built abstract interpreter recording map-lookup keys (E-sym), edge-dominance, who-may-write, literal checks",
+             note="Trusted: Go map semantics, xmlstream.Iter; how much of the replay a handler reads is not decided."),
 }
 
 def main():
